@@ -61,23 +61,31 @@ def main():
     finally:
         sh(['git', '-C', '/repo', 'worktree', 'remove', '--force', wt])
     # run the checks against /repo with the patch applied (one evaluation at a time: /repo is shared)
+    # the tree the checks run against is NEVER /repo itself: a private scratch worktree of /repo's HEAD (or the copy named by
+    # VERIF_REPO in background runs) gets the patch, and the checks are pointed at it through VERIF_REPO — so that work on
+    # /repo can go on while evaluations run, and a commit there can never pick up a seeded change
+    own_target = 'VERIF_REPO' not in os.environ
+    if own_target:
+        target = tempfile.mkdtemp(prefix='muteval_', dir='/tmp'); os.rmdir(target)
+        rc, o = sh(['git', '-C', '/repo', 'worktree', 'add', '-q', target, 'HEAD'])
+        assert rc == 0, o
+    else:
+        target = os.environ['VERIF_REPO']
     import fcntl
-    # the tree the checks run against: /repo itself, or a private copy named by VERIF_REPO (background regression runs)
-    target = os.environ.get('VERIF_REPO', '/repo')
-    lock = open('/tmp/verif_repo_apply.%s.lock' % target.strip('/').replace('/', '_'), 'w')
+    # one evaluation at a time in this /verif: the checks regenerate lean/MLGen from the tree under test
+    lock = open(os.path.join(V, 'lean', '.lake', 'eval.lock') if os.path.isdir(os.path.join(V, 'lean', '.lake')) else '/tmp/verif_eval.lock', 'w')
     fcntl.flock(lock, fcntl.LOCK_EX)
-    if target == '/repo':
-        rc, o = sh(['git', '-C', '/repo', 'status', '--porcelain'])
-        assert o.strip() == '', '/repo has uncommitted changes: ' + o
     rc, o = sh(['git', 'apply', patch], cwd=target)
     if rc != 0:
         out['patch_applies'] = False; out['apply_output'] = o[-300:]
+        if own_target:
+            sh(['git', '-C', '/repo', 'worktree', 'remove', '--force', target])
         print(json.dumps(out, indent=1)); return
     res = {}
     try:
         for c in checks:
             for s in seeds:
-                env = dict(os.environ, VERIF_SEED=str(s), VERIF_EVIDENCE_DIR=os.path.join(V, 'evidence_dev'))
+                env = dict(os.environ, VERIF_SEED=str(s), VERIF_EVIDENCE_DIR=os.path.join(V, 'evidence_dev'), VERIF_REPO=target)
                 t0 = time.time()
                 rc, o = sh([os.path.join(V, 'check'), c, '--tier', 'quick'], cwd=V, timeout=3000, env=env)
                 viol = [l for l in o.split('\n') if l.startswith('VIOLATION')]
@@ -92,8 +100,8 @@ def main():
                     info['tail'] = o[-400:]
                 res[f'{c}@{s}'] = info
     finally:
-        if target == '/repo':
-            sh(['git', '-C', '/repo', 'checkout', '--', '.'])
+        if own_target:
+            sh(['git', '-C', '/repo', 'worktree', 'remove', '--force', target])
         else:
             sh(['git', 'apply', '-R', patch], cwd=target)
     out['checks'] = res
